@@ -440,10 +440,10 @@ func (st *Store) Fetch(timeout time.Duration, hits []Hit, useHints bool) ([]Fetc
 	return out, status, nil
 }
 
-// WaitIdle waits until the active fraction has indexed everything that was appended.
+// WaitIdle waits until every fraction has indexed everything that was appended to it (writers idle).
 func (st *Store) WaitIdle(timeout time.Duration) string {
 	fm := st.FM
-	return st.Call(timeout, func() { fm.WaitIdle() })
+	return st.Call(timeout, func() { fm.VerifWaitAllIndexed() })
 }
 
 // FracInfo summarises one fraction for state fingerprints and oracles.
